@@ -2,6 +2,7 @@ use super::{Id, Kind, Pubkey, Sig, Tags, Time};
 use crate::error::{Error, InnerError};
 use crate::json::json_escape;
 use crate::json::json_parse::*;
+use crate::json::to_u32;
 use std::cmp::Ordering;
 use std::fmt;
 use std::ops::{Deref, DerefMut};
@@ -94,7 +95,7 @@ impl Event {
         }
 
         // length
-        output[0..4].copy_from_slice((length as u32).to_ne_bytes().as_slice());
+        output[0..4].copy_from_slice(to_u32(length)?.to_ne_bytes().as_slice());
 
         // kind
         output[4..6].copy_from_slice(kind.as_ref().to_ne_bytes().as_slice());
@@ -120,7 +121,7 @@ impl Event {
 
         // content len
         output[144 + taglen..144 + taglen + 4]
-            .copy_from_slice((contentlen as u32).to_ne_bytes().as_slice());
+            .copy_from_slice(to_u32(contentlen)?.to_ne_bytes().as_slice());
 
         // content
         output[144 + taglen + 4..144 + taglen + 4 + contentlen].copy_from_slice(content);
